@@ -1,8 +1,47 @@
-// unit `ids_lift` — the per-client LIFTING of the interval layer: IdMapInner<T> (yrs/src/ids.rs), IdSet (yrs/src/id_set.rs)
-// and the IdMap<A> wrappers (yrs/src/id_map.rs).  Serves C16.
+// unit `ids_lift` — the per-client LIFTING of the interval layer.  Serves C16.
+//   yrs/src/ids.rs     IdMapInner<T> (BTreeMap<ClientID, IdRanges<T>>)
+//   yrs/src/id_set.rs  IdSet, <IdSet as DeleteSet>::from_store
+//   yrs/src/id_map.rs  IdMap<A> wrappers, <IdSet as From<IdMap<A>>>::from
 //
-// The IdRanges<T> operations called here are NOT re-verified: they appear as bodiless-for-Verus stubs
-// (`#[verifier::external_body]` + the extract directive carrying the byte-identical @sig of the unit that proves them).
+// ABSTRACTION   view of an IdMapInner = Map<ClientID, Seq<Ent<T>>>;  has_pt(m, client, clock) = the point is a member;
+//   val(m, client, clock) = its attribute;  wf_map(m) = every per-client entry is canon AND non-empty ("no empty per-client
+//   entry is ever stored": what makes is_empty(), == and the encoding agree with the mathematical set).
+//   Every operation: requires wf_map of its arguments, ensures wf_map of the result + the pointwise set/map result.
+//
+// LEVELS  (A = whole function verified, B = lifted step verified + iteration trusted, C = not ingestible)
+//   IdMapInner  A: default new is_empty len get contains entry clients clients_mut insert_range merge_with merge diff_with diff
+//                  intersect_with intersect map   (+ the derived Clone, written out)
+//   IdSet       A: default/new len contains is_empty get insert insert_range remove_range merge_with merge diff_with diff
+//                  intersect_with intersect range_mut(*) from_store(**)
+//               B: from_iter: the loop body is lifted (R18) with the `from_ranges` result as parameter; the generic
+//                  `IntoIterator` iteration and IdRanges::from_ranges (generic iterator) are C
+//   IdMap       A: is_empty contains remove intersect_with as_id_set; insert and merge_with: whole body lifted (R18) with the
+//                  statements that only touch the `attrs` interning cache dropped (@drop)
+//   From<IdMap<A>> for IdSet::from  A (body lifted whole into a free fn: a trait-method impl cannot carry `requires`)
+//   (*)  range_mut: ONE named finding obligation, see FINDING below.   (**) over stand-ins of the block layer, section 7.
+//
+// TRUSTED (A2), each with its std-documented contract at the declaration:
+//   axiom_client_id_key_model   the ONE key-model axiom: ClientID's derived Ord is a total order (vstd: key_obeys_cmp_spec)
+//   VxMapApi::vx_entry          std BTreeMap::entry.  Entry / OccupiedEntry / VacantEntry are stand-in types over a mutable
+//                               optional SLOT of the map; get_mut, into_mut, remove, insert, or_default are VERIFIED against it
+//   VxMapApi::vx_retain         std BTreeMap::retain (the closure is the real one, annotated with @closure)
+//   vstd's own specifications of BTreeMap::{new, len, is_empty, get, insert, clone, iter} and Vec::{iter, len, clone}
+//   stubs of the IdRanges<T> callees proved in units ids / ids_insert / ids_merge / ids_xi (contract text cross-checked)
+//   derived impls written out by hand and verified: Clone for IdRanges / IdMapInner, Default for IdSet
+//
+// REWRITES  R1 R2 R3 R4 R5 R6 R9 R10 (for the stub bodies, as in the proving units; R6 is skipped on functions that iterate a
+//   map), SUB `.entry(k)` -> `.vx_entry(k)`, `.retain` -> `.vx_retain`, `in &other.0` -> `in other.0.iter()` (std: IntoIterator
+//   for &BTreeMap is iter()), type spelling of btree_map::Entry, INLINE of IdRanges::iter / BlockStore::iter /
+//   ClientBlockList::iter (accessor bodies checked), R18 regions as listed, `(&client, blocks)` -> `(client, blocks)` + `*client`.
+//
+// FINDING (kept as ONE named obligation, expected to fail): ids_lift::idset_range_mut::post :: no_empty_entry
+//   IdSet::range_mut(c) creates the entry before the caller inserts anything and hands out `&mut IdRange`: an empty
+//   per-client entry stays behind if the caller inserts nothing.  Input: `IdSet::new().range_mut(ClientID(1));` => is_empty()
+//   is false for a set without points and `!= IdSet::new()`.
+//   Repaired in /repo meanwhile (their clauses are ordinary ensures now): IdMapInner::insert_range with an empty range,
+//   IdSet::insert(id, 0), IdSet::insert_range(c, empty), IdSet::from_iter (empty item; duplicate client replaced instead of merged).
+//
+// Function bodies are pulled from /repo on every run by vx/extract.py.
 #![allow(unused_imports, unused_variables, unused_mut, dead_code, unused_parens, unused_braces)]
 use vstd::prelude::*;
 
@@ -235,7 +274,7 @@ pub mod vx_ids {
         }
     }
 
-    pub trait VxEntryApi<V> {
+    pub trait VxMapApi<V> {
         spec fn vx_view(&self) -> Map<ClientID, V>;
 
         /// A2 (trusted): std `BTreeMap::entry`
@@ -256,7 +295,7 @@ pub mod vx_ids {
                     exists|v: &mut V| *v == old(self).vx_view()[k] && #[trigger] call_ensures(f, (&k, v), false);
     }
 
-    impl<V> VxEntryApi<V> for BTreeMap<ClientID, V> {
+    impl<V> VxMapApi<V> for BTreeMap<ClientID, V> {
         open spec fn vx_view(&self) -> Map<ClientID, V> { self@ }
 
         #[verifier::external_body]
@@ -1696,38 +1735,94 @@ pub mod vx_ids {
     // ==========================================================================================
     // 7. <IdSet as DeleteSet>::from_store  (yrs/src/id_set.rs)
     // ==========================================================================================
-    // R17 stand-ins for the block layer, which is opaque to this unit.  They model exactly what from_store observes:
-    //   Block            `is_deleted()` and `clock_range()` (first clock, LAST clock inclusive) are arbitrary per block
-    //                    (real: Block::{Item,GC,Skip}; GC is deleted, Skip is not, an Item asks its flag)
-    //   BlockRef::as_ref a BlockRef is a reference to its block (real: `unsafe { &*self.cell.get() }`)
+    // R17 stand-ins for the block layer.  They keep exactly what from_store observes:
+    //   Block            the REAL enum (Item / GC / Skip) with the REAL `is_deleted`, `clock_range` (first clock, LAST clock
+    //                    inclusive) extracted from block.rs
+    //   Item             stand-in with the three things read here: `id`, `len` and the deleted flag
+    //                    (real `is_deleted` = `self.info.is_deleted()`, a flag test); the REAL `Item::clock_range` is extracted
+    //   BlockRef         a BlockRef is a reference to its block (real: `unsafe { &*self.cell.get() }`): `as_ref` is the identity,
+    //                    `as_item` is the real body
     //   ClientBlockList  a Vec of blocks (real: Vec<UnsafeCell<Block>>); `iter()` is a newtype over the slice iterator
     //                    (ClientBlockListIter: `next` = inner `next` + BlockRef::new), inlined after checking its body
     //   BlockStore       client -> ClientBlockList map.  The real map is a HashMap with a custom hasher; it is modelled by
     //                    a BTreeMap because only "iter() yields every stored pair exactly once" is used (no order).
-    pub struct Block {
+    pub struct Item {
+        pub id: ID,
+        pub len: u32,
         pub deleted: bool,
-        pub first: u32,
-        pub last: u32,
     }
 
-    impl Block {
-        pub fn as_ref(&self) -> (r: &Block)
-            ensures r == self,
-        {
-            self
-        }
-
+    impl Item {
         pub fn is_deleted(&self) -> (r: bool)
             ensures r == self.deleted,
         {
             self.deleted
         }
 
-        pub fn clock_range(&self) -> (r: (u32, u32))
-            ensures r == (self.first, self.last),
-        {
-            (self.first, self.last)
+        /*@extract yrs/src/block.rs | impl Item | fn clock_range | label=item_clock_range
+        @ret r
+        @sig
+            requires self.len >= 1, self.id.clock + self.len <= u32::MAX,
+            ensures r.0 == self.id.clock, r.1 == self.id.clock + self.len - 1,
+        @*/
+    }
+
+    /*@extract yrs/src/block.rs | - | enum Block @*/
+
+    impl Block {
+        pub open spec fn spec_deleted(&self) -> bool {
+            match self {
+                Block::Item(item) => item.deleted,
+                Block::GC(_) => true,
+                Block::Skip(_) => false,
+            }
         }
+
+        pub open spec fn first(&self) -> int {
+            match self {
+                Block::Item(item) => item.id.clock as int,
+                Block::GC(r) => r.clock as int,
+                Block::Skip(r) => r.clock as int,
+            }
+        }
+
+        pub open spec fn length(&self) -> int {
+            match self {
+                Block::Item(item) => item.len as int,
+                Block::GC(r) => r.len as int,
+                Block::Skip(r) => r.len as int,
+            }
+        }
+
+        /// domain restriction: a block has at least one clock and its clocks fit in u32
+        pub open spec fn ok(&self) -> bool {
+            self.length() >= 1 && self.first() + self.length() <= u32::MAX
+        }
+
+        pub fn as_ref(&self) -> (r: &Block)
+            ensures r == self,
+        {
+            self
+        }
+
+        /*@extract yrs/src/block.rs | impl<'a> BlockRef<'a> | fn as_item | label=blockref_as_item | rules=SUB(from=&'a Item;;to=&Item)
+        @ret r
+        @sig
+            ensures r == (match self { Block::Item(item) => Some(&**item), _ => None::<&Item> }),
+        @*/
+
+        /*@extract yrs/src/block.rs | impl Block | fn is_deleted | label=block_is_deleted
+        @ret r
+        @sig
+            ensures r == self.spec_deleted(),
+        @*/
+
+        /*@extract yrs/src/block.rs | impl Block | fn clock_range | label=block_clock_range
+        @ret r
+        @sig
+            requires self.ok(),
+            ensures r.0 == self.first(), r.1 == self.first() + self.length() - 1,
+        @*/
     }
 
     pub struct ClientBlockList {
@@ -1748,7 +1843,7 @@ pub mod vx_ids {
 
     /// clock `k` lies in the deleted block `b`
     pub open spec fn blk_covers(b: Block, k: int) -> bool {
-        b.deleted && b.first <= k <= b.last
+        b.spec_deleted() && b.first() <= k < b.first() + b.length()
     }
 
     /// clock `k` lies in a deleted block among the first `n` of the list
@@ -1761,9 +1856,9 @@ pub mod vx_ids {
         st.contains_key(c) && deleted_upto(st[c].inner@, st[c].inner@.len() as int, k)
     }
 
-    /// domain restriction: clocks of blocks fit in u32 (so that `last + 1` does)
+    /// domain restriction: every block has at least one clock and its clocks fit in u32 (so that `last + 1` does)
     pub open spec fn store_ok(st: Map<ClientID, ClientBlockList>) -> bool {
-        forall|c: ClientID, i: int| st.contains_key(c) && 0 <= i < st[c].inner@.len() ==> (#[trigger] st[c].inner@[i]).last < u32::MAX
+        forall|c: ClientID, i: int| st.contains_key(c) && 0 <= i < st[c].inner@.len() ==> (#[trigger] st[c].inner@[i]).ok()
     }
 
     /// what from_store has established for a visited client `c`
@@ -1838,7 +1933,7 @@ pub mod vx_ids {
             invariant
                 it2.seq().len() == bs.len(),
                 forall|j: int| 0 <= j < bs.len() ==> *(#[trigger] it2.seq()[j]) == bs[j],
-                forall|j: int| 0 <= j < bs.len() ==> (#[trigger] bs[j]).last < u32::MAX,
+                forall|j: int| 0 <= j < bs.len() ==> (#[trigger] bs[j]).ok(),
                 canon(deletes@),
                 forall|k: int| #![trigger covers(deletes@, k)] #![trigger deleted_upto(bs, it2.index@ as int, k)] covers(deletes@, k) <==> deleted_upto(bs, it2.index@ as int, k),
         @before 1 `stmt:let block`
@@ -1849,8 +1944,8 @@ pub mod vx_ids {
             proof {
                 assert forall|k: int| #![trigger covers(deletes@, k)] #![trigger deleted_upto(bs, i + 1, k)] covers(deletes@, k) <==> deleted_upto(bs, i + 1, k) by {
                     lemma_deleted_step(bs, i, k);
-                    if bs[i].deleted {
-                        let rg = bs[i].first..((bs[i].last + 1) as u32);
+                    if bs[i].spec_deleted() {
+                        let rg = (bs[i].first() as u32)..((bs[i].first() + bs[i].length()) as u32);
                         assert(inr(rg, k) <==> blk_covers(bs[i], k));
                         assert(covers(deletes@, k) <==> covers(g0, k) || inr(rg, k));
                     }
